@@ -166,7 +166,10 @@ def history_layer(ctx):
             cases.append((name, call_text(name, args, "std"), expected(ident, args)))
     by_bare = sorted(cases, key=lambda c: (c[0].split(".")[-1].lower(), len(c[1]), c[0]))
     for order_name, seq in (("forward", cases), ("reverse", cases[::-1]), ("by-bare-name", by_bare), ("by-bare-name-reverse", by_bare[::-1])):
-        for name, text, exp in seq:
+        poison = ["zz9(1) eq", "substring(a) and #", "length(a, b) eq (", "geo.zz(1) )", "a eq eq 1"]
+        for i, (name, text, exp) in enumerate(seq):
+            if order_name == "forward":
+                observe(poison[i % len(poison)])      # a rejected input (bad call reduced before a syntax error) on the same parser
             got = observe(text)
             ctx.count("executions")
             ctx.count("transitions")
